@@ -584,6 +584,9 @@ class PDFStandardSecurityHandlerV4(PDFStandardSecurityHandler):
         key = hash.digest()[: min(len(key), 16)]
         initialization_vector = data[:16]
         ciphertext = data[16:]
+        if len(initialization_vector) < 16:
+            # too short to hold the initialization vector: nothing to decrypt
+            return b""
         cipher = Cipher(
             algorithms.AES(key),
             modes.CBC(initialization_vector),
@@ -726,6 +729,9 @@ class PDFStandardSecurityHandlerV5(PDFStandardSecurityHandlerV4):
     def decrypt_aes256(self, objid: int, genno: int, data: bytes) -> bytes:
         initialization_vector = data[:16]
         ciphertext = data[16:]
+        if len(initialization_vector) < 16:
+            # too short to hold the initialization vector: nothing to decrypt
+            return b""
         assert self.key is not None
         cipher = Cipher(
             algorithms.AES(self.key),
